@@ -3,6 +3,7 @@ import ast
 import re
 
 from ..core import AnalysisError
+from .shared_py import inn
 from ..pyfront import unparse, try_const
 from . import shared_gen as G
 from . import c13_progress
@@ -59,7 +60,7 @@ def sort_protocol(ctx, L):
     m = ctx.py.mod('prophyc.model')
     f = m.func('topological_sort')
     s = ws(unparse(f.node))
-    L.check("known = set((x + y for x in 'uir' for y in ['8', '16', '32', '64']))" in s, 'C15.sort-protocol', 'known-seed', f.site(),
+    L.check(inn("known = set((x + y for x in 'uir' for y in ['8', '16', '32', '64']))", s), 'C15.sort-protocol', 'known-seed', f.site(),
             'initially only the builtin types are known: anything else a node depends on must first be placed in front of it (a name '
             'delivered by an include can be shadowed by a local definition that still has to be ordered)', '')
     muts = []
@@ -74,14 +75,14 @@ def sort_protocol(ctx, L):
             'a name may become known only when its own node is settled (`known.add(node.name)`); names added wholesale (e.g. everything '
             'an include delivers) are treated as already defined although a local definition of the same name may still sit behind '
             'its user: %s' % muts, str(muts))
-    L.check('available = set((node.name for node in nodes))' in s, 'C15.sort-protocol', 'available', f.site(),
+    L.check(inn('available = set((node.name for node in nodes))', s), 'C15.sort-protocol', 'available', f.site(),
             'exactly the names defined in this list can be moved', '')
-    L.check('for index in range(len(nodes)): while model_sort_rotate(): pass' in s, 'C15.sort-protocol', 'outer-loop', f.site(),
+    L.check(inn('for index in range(len(nodes)): while model_sort_rotate(): pass', s), 'C15.sort-protocol', 'outer-loop', f.site(),
             'every position is settled in order', '')
     r = m.func('topological_sort.model_sort_rotate')
     rs = ws(unparse(r.node))
-    L.check('node = nodes[index] for dep in node.dependencies(): if dep not in known and dep in available: found_index = find_first_dep(dep, index + 1) '
-            'if found_index: nodes.insert(index, nodes.pop(found_index)) return True known.add(node.name)' in rs, 'C15.sort-protocol',
+    L.check(inn('node = nodes[index] for dep in node.dependencies(): if dep not in known and dep in available: found_index = find_first_dep(dep, index + 1) '
+            'if found_index: nodes.insert(index, nodes.pop(found_index)) return True known.add(node.name)', rs), 'C15.sort-protocol',
             'model_sort_rotate', r.site(), 'a node is settled (known) only when none of its available dependencies is still behind it; '
             'otherwise the first such dependency is moved in front of it', rs)
     fd = m.func('topological_sort.find_first_dep')
